@@ -675,13 +675,19 @@ class CSSStyleSheet(css_parser.stylesheets.StyleSheet):
                             index = len(self._cssRules) - i
                             break
                 else:
-                    # find first point to insert
+                    # find first point to insert: never before the last
+                    # @charset or @import (a comment may precede them)
+                    start = 0
                     for i, r in enumerate(self._cssRules):
+                        if r.type in (r.CHARSET_RULE, r.IMPORT_RULE):
+                            start = i + 1
+                    index = len(self._cssRules)
+                    for i, r in enumerate(self._cssRules[start:]):
                         if r.type in (r.VARIABLES_RULE, r.MEDIA_RULE,
                                       r.PAGE_RULE, r.STYLE_RULE,
                                       r.FONT_FACE_RULE, r.UNKNOWN_RULE,
                                       r.COMMENT):
-                            index = i  # before these
+                            index = start + i  # before these
                             break
             else:
                 # after @charset and @import
@@ -725,15 +731,23 @@ class CSSStyleSheet(css_parser.stylesheets.StyleSheet):
                             index = len(self._cssRules) - i
                             break
                 else:
-                    # find first point to insert
+                    # find first point to insert: never before the last
+                    # @charset, @import or @namespace
+                    start = 0
                     for i, r in enumerate(self._cssRules):
+                        if r.type in (r.CHARSET_RULE,
+                                      r.IMPORT_RULE,
+                                      r.NAMESPACE_RULE):
+                            start = i + 1
+                    index = len(self._cssRules)
+                    for i, r in enumerate(self._cssRules[start:]):
                         if r.type in (r.MEDIA_RULE,
                                       r.PAGE_RULE,
                                       r.STYLE_RULE,
                                       r.FONT_FACE_RULE,
                                       r.UNKNOWN_RULE,
                                       r.COMMENT):
-                            index = i  # before these
+                            index = start + i  # before these
                             break
             else:
                 # after @charset @import @namespace
